@@ -13,6 +13,10 @@ Cfg_BigConnect == {[BaseCfg EXCEPT !.connectUnits = 2]}
 Cfg_KeepAlive == {[BaseCfg EXCEPT !.ka = k, !.pingTmo = pt] : k \in {0, 1, 2}, pt \in {1, 3}}
 Cfg_Rejoin == {[BaseCfg EXCEPT !.rejoin = r, !.cid = c] : r \in {"PostSuccess", "Always", "Never"}, c \in {"c", ""}}
 Cfg_Alias == {[BaseCfg EXCEPT !.resolver = r, !.lruMax = 1, !.tamIn = 1, !.ver = v] : r \in {"null", "manual", "lru"}, v \in {5}}
+Cfg_RejoinBig == {[BaseCfg EXCEPT !.rejoin = r, !.cid = c, !.connectUnits = 2] : r \in {"PostSuccess", "Always", "Never"}, c \in {"c", ""}}
+Cfg_Wake == {[BaseCfg EXCEPT !.connectUnits = u, !.ka = k, !.pingTmo = 1] : u \in {1, 2}, k \in {0, 1}}
+Cfg_Drain == {[BaseCfg EXCEPT !.drain = d] : d \in {"None", "One"}}
+Cfg_Ka1 == {[BaseCfg EXCEPT !.ka = 1, !.drain = "One"]}
 Cfg_Versions == {[BaseCfg EXCEPT !.ver = v, !.policy = p] : v \in {5, 311}, p \in {"All", "Ack"}}
 
 Op(kind, qos) == [kind |-> kind, qos |-> qos, tmo |-> None, retain |-> FALSE, need |-> "none", topic |-> "t1", ualias |-> 0, units |-> 1, n |-> IF kind = "pub" THEN 0 ELSE 1]
@@ -20,9 +24,14 @@ Op(kind, qos) == [kind |-> kind, qos |-> qos, tmo |-> None, retain |-> FALSE, ne
 Sub_Pubs == {Op("pub", 0), Op("pub", 1), Op("pub", 2)}
 Sub_Acked == {Op("pub", 1), Op("pub", 2), Op("sub", 0)}
 Sub_All == {Op("pub", 0), Op("pub", 1), Op("pub", 2), Op("sub", 0), Op("unsub", 0)}
+Sub_Q1 == {Op("pub", 1)}
+Sub_Big == {[Op("pub", 0) EXCEPT !.units = 2], [Op("pub", 2) EXCEPT !.units = 2, !.tmo = 2], Op("sub", 0)}
 Sub_Q2 == {Op("pub", 2)}
 Sub_Q12Big == {Op("pub", 1), [Op("pub", 2) EXCEPT !.units = 2]}
 Sub_Timeouts == {[Op("pub", 1) EXCEPT !.tmo = 2], [Op("pub", 2) EXCEPT !.tmo = 2], [Op("sub", 0) EXCEPT !.tmo = 2], Op("pub", 1)}
+Sub_Timeouts2 == {[Op("pub", 2) EXCEPT !.tmo = 2], [Op("sub", 0) EXCEPT !.tmo = 2]}
+Sub_Big2 == {[Op("pub", 2) EXCEPT !.units = 2, !.tmo = 2], Op("sub", 0)}
+Sub_Mix3 == {Op("pub", 0), Op("pub", 2), Op("sub", 0)}
 Sub_Alias == {[Op("pub", 0) EXCEPT !.topic = t, !.ualias = a, !.retain = r] : t \in {"t1", "t2"}, a \in {0, 1}, r \in {FALSE, TRUE}}
 Sub_Validation == {Op("pub", 1), Op("pub", 2), [Op("pub", 0) EXCEPT !.retain = TRUE], [Op("sub", 0) EXCEPT !.need = "wild", !.n = 2],
                    [Op("sub", 0) EXCEPT !.need = "shared", !.n = 2], [Op("pub", 0) EXCEPT !.need = "oversize"], [Op("sub", 0) EXCEPT !.need = "badfilter", !.n = 2]}
@@ -31,6 +40,9 @@ Ck(sp, rm) == [sp |-> sp, rm |-> rm, ka |-> -1, tam |-> -1, mqos |-> -1, mps |->
 Ck_Plain == {Ck(0, -1), Ck(1, -1)}
 Ck_Rm == {Ck(sp, rm) : sp \in {0, 1}, rm \in {1, 2, -1}}
 Ck_Rm1 == {Ck(sp, 1) : sp \in {0, 1}}
+Ck_Handshake == {Ck(0, -1), Ck(1, -1), [Ck(0, -1) EXCEPT !.rc = 135], [Ck(0, -1) EXCEPT !.acid = "assigned"]}
+Ck_Rm1Ka == {[Ck(0, 1) EXCEPT !.ka = k] : k \in {-1, 1}}
+Ck_Rm1Plain == {Ck(0, -1), Ck(1, -1), Ck(1, 1)}
 Ck_Fail == {Ck(0, -1), Ck(1, -1), [Ck(0, -1) EXCEPT !.rc = 135]}
 Ck_Ka == {[Ck(0, -1) EXCEPT !.ka = k] : k \in {-1, 1}}
 Ck_Alias == {[Ck(0, -1) EXCEPT !.tam = tm, !.ret = rt] : tm \in {0, 1, 2}, rt \in {-1, 0}}
@@ -40,6 +52,8 @@ Ck_Acid == {Ck(0, -1), [Ck(0, -1) EXCEPT !.acid = "assigned"], Ck(1, -1)}
 In(qos, pid, dup) == [qos |-> qos, pid |-> pid, dup |-> dup, alias |-> "none", topic |-> "in1"]
 In_None == {}
 In_Basic == {In(0, -1, FALSE), In(1, -1, FALSE), In(2, -1, FALSE), In(2, -2, TRUE)}
+In_Q1 == {In(1, -1, FALSE)}
+In_Q2only == {In(2, -1, FALSE)}
 In_Q2 == {In(2, -1, FALSE), In(2, -2, TRUE), In(1, -1, FALSE)}
 In_Alias == {[In(0, -1, FALSE) EXCEPT !.alias = a, !.topic = t] : a \in {"none", "bind", "reuse", "unknown", "zero", "range"}, t \in {"in1", "in2"}}
 =============================================================================
